@@ -8,7 +8,6 @@ import (
 	"os"
 	"os/exec"
 	"path/filepath"
-	"regexp"
 	"runtime/debug"
 	"strconv"
 	"strings"
@@ -290,7 +289,30 @@ func Guard(f func()) (panicked bool, sig, text string) {
 	return
 }
 
-var frameRe = regexp.MustCompile(`(?m)^([A-Za-z0-9_./\-]+(?:\.\([^)]*\))?(?:\.[A-Za-z0-9_\-]+)*(?:\[\.\.\.\])?(?:\.func[0-9.]+)*)\(`)
+// frames returns the function names of a Go crash text, outermost call last.
+// A frame line is "pkg/path.(*T).Method(args...)" at column 0: the name is what
+// precedes the last '('.
+func frames(text string) []string {
+	var out []string
+	for _, line := range strings.Split(text, "\n") {
+		if line == "" || line[0] == ' ' || line[0] == '\t' || !strings.HasSuffix(strings.TrimRight(line, " "), ")") {
+			continue
+		}
+		if strings.HasPrefix(line, "goroutine ") || strings.HasPrefix(line, "panic:") || strings.HasPrefix(line, "fatal error") || strings.HasPrefix(line, "created by") {
+			continue
+		}
+		i := strings.LastIndex(line, "(")
+		if i <= 0 {
+			continue
+		}
+		name := line[:i]
+		if strings.ContainsAny(name, " \t") {
+			continue
+		}
+		out = append(out, name)
+	}
+	return out
+}
 
 // PanicSignature reduces a Go crash text to "<first immudb frame>/<kind>".
 func PanicSignature(text string) string {
@@ -325,16 +347,15 @@ func PanicSignature(text string) string {
 		kind = "arith"
 	}
 	fn := ""
-	for _, m := range frameRe.FindAllStringSubmatch(text, -1) {
-		name := m[1]
+	fs := frames(text)
+	for _, name := range fs {
 		if strings.HasPrefix(name, "github.com/codenotary/immudb/") && !strings.Contains(name, "/verifhook") {
 			fn = strings.TrimPrefix(name, "github.com/codenotary/immudb/")
 			break
 		}
 	}
 	if fn == "" {
-		for _, m := range frameRe.FindAllStringSubmatch(text, -1) {
-			name := m[1]
+		for _, name := range fs {
 			if strings.HasPrefix(name, "runtime") || strings.HasPrefix(name, "panic") || strings.HasPrefix(name, "verifharness") || strings.HasPrefix(name, "main.") {
 				continue
 			}
